@@ -24,7 +24,7 @@ def calls_path(body, needle):
 def is_clock_reader(body):
     """a body that directly calls libc's clock_gettime"""
     for _, t, fn in body.calls():
-        if fn and fn.get('crate') == 'libc' and fn.get('name') == 'clock_gettime':
+        if fn and fn.get('name') == 'clock_gettime' and fn.get('crate') in ('libc', 'nix'):
             return True
     return False
 
